@@ -60,6 +60,12 @@ def kindIdx : Kind → Nat
 def tyIdx : Ty → Nat
   | .int => 0 | .bool => 1 | .double => 2 | .string => 3 | .vec3d => 4
 
+def kindName : Kind → String
+  | .V => "V" | .E => "E" | .HE => "HE" | .F => "F" | .HF => "HF" | .C => "C" | .M => "M"
+
+def tyName : Ty → String
+  | .int => "int" | .bool => "bool" | .double => "double" | .string => "string" | .vec3d => "vec3d"
+
 def unq (s : String) : String :=
   if s.length ≥ 2 && s.front == '"' && s.back == '"' then ((s.drop 1).dropEnd 1).copy else s
 
@@ -269,7 +275,7 @@ def canonOrder (w : World) : List Nat :=
 def indexOf (l : List Nat) (x : Nat) : Nat := (l.findIdx? (· == x)).getD l.length
 
 def showStorage (ren : Nat → Nat) (s : Storage) : String :=
-  s!"#{ren s.id} {repr s.kind} {repr s.ty} \"{s.name}\" sh={s.shared} pe={s.pers} tr={s.tracker} def={s.dflt} vals={s.vals}"
+  s!"#{ren s.id} {kindName s.kind} {tyName s.ty} \"{s.name}\" sh={s.shared} pe={s.pers} tr={s.tracker} def={s.dflt} vals={s.vals}"
 
 /-- canonical rendering of a world as labelled fields (compared field by field) -/
 def canonFields (w : World) : List (String × String) :=
@@ -318,7 +324,7 @@ def lookupArr (l : List (Nat × List Nat)) (m : Nat) (k : Kind) : Nat :=
 
 /-- the storage as an owner-independent value (no ids) -/
 def content (s : Storage) : String :=
-  s!"{repr s.kind} {repr s.ty} \"{s.name}\" sh={s.shared} pe={s.pers} att={s.tracker.isSome} def={s.dflt} vals={s.vals}"
+  s!"{kindName s.kind} {tyName s.ty} \"{s.name}\" sh={s.shared} pe={s.pers} att={s.tracker.isSome} def={s.dflt} vals={s.vals}"
 
 /-- everything observable about mesh `m` without storage identities -/
 def meshContent (im : Impl) (me : Mesh) : String :=
@@ -356,10 +362,10 @@ def c14State (im : Impl) : List (String × String) := Id.run do
     for k in Kind.all do
       let tracked := (w.heap.filter (fun s => s.tracker == some me.id && s.kind == k)).length
       if lookupArr im.np me.id k != tracked then
-        out := out ++ [("n_props_eq_attached", s!"mesh {me.id} kind {repr k}: n_props={lookupArr im.np me.id k} attached={tracked}")]
+        out := out ++ [("n_props_eq_attached", s!"mesh {me.id} kind {kindName k}: n_props={lookupArr im.np me.id k} attached={tracked}")]
       let pers := (me.pers.filter (fun i => (getS w i).any (·.kind == k))).length
       if lookupArr im.pp me.id k != pers then
-        out := out ++ [("n_persistent_eq_count", s!"mesh {me.id} kind {repr k}: n_persistent_props={lookupArr im.pp me.id k} listed={pers}")]
+        out := out ++ [("n_persistent_eq_count", s!"mesh {me.id} kind {kindName k}: n_persistent_props={lookupArr im.pp me.id k} listed={pers}")]
     for i in me.pers do
       match getS w i with
       | none => out := out ++ [("persistent_entry_exists", s!"mesh {me.id} entry {i}")]
